@@ -18,14 +18,15 @@ mut("c15-types-counter-not-reset", ["C15"], "src/parser.y", "        { types = 0
 mut("c15-yylloc-not-reset", ["C15", "C06"], "src/parser.y", "    yylloc.start = yylloc.end = tracker.position;\n\n    // Parse string", "\n    // Parse string")
 # ---------------- C04 ----------------
 mut("c04-swap-source-target-nonself", ["C04"], "src/xmlreader.cpp", "            parser->proc_edge_begin(from.c_str(), to.c_str(), control, actname.c_str());", "            if (!control && from != to) std::swap(from, to);\n            parser->proc_edge_begin(from.c_str(), to.c_str(), control, actname.c_str());")
-mut("c04-controllable-false-ignored-when-action", ["C04", "C05"], "src/xmlreader.cpp", "            bool control = (type == nullptr || (strcmp(type, \"true\") == 0));", "            bool control = (type == nullptr || (strcmp(type, \"false\") != 0));")
-mut("c04-args-bound-reversed", ["C04", "C08"], "src/document.cpp", "    for (size_t i = 0; i < arguments.size(); ++i)\n        instance.mapping[inst.parameters[i]] = arguments[i];", "    for (size_t i = 0; i < arguments.size(); ++i)\n        instance.mapping[inst.parameters[i]] = arguments[arguments.size() > 2 ? arguments.size() - 1 - i : i];")
-mut("c04-urgent-when-also-committed", ["C04"], "src/xmlreader.cpp", "            if (l_committed)\n                parser->proc_location_commit(l_name.c_str());\n            if (l_urgent)", "            if (l_committed)\n                parser->proc_location_commit(l_name.c_str());\n            else if (l_urgent)")
+mut("c04-selfloop-always-controllable", ["C04", "C05"], "src/xmlreader.cpp", "            parser->proc_edge_begin(from.c_str(), to.c_str(), control, actname.c_str());", "            parser->proc_edge_begin(from.c_str(), to.c_str(), control || from == to, actname.c_str());")
+mut("c04-args-bound-reversed", ["C04"], "src/document.cpp", "    for (size_t i = 0; i < arguments.size(); ++i)\n        instance.mapping[inst.parameters[i]] = arguments[i];", "    for (size_t i = 0; i < arguments.size(); ++i)\n        instance.mapping[inst.parameters[i]] = arguments[arguments.size() > 2 ? arguments.size() - 1 - i : i];")
+mut("c04-committed-dropped-with-rate", ["C04"], "src/xmlreader.cpp", "            if (l_committed)\n                parser->proc_location_commit(l_name.c_str());", "            if (l_committed && !l_exponentialRate)\n                parser->proc_location_commit(l_name.c_str());")
 # ---------------- C05 ----------------
 mut("c05-xta-uncontrollable-chained", ["C05"], "src/parser.y", "            CALL(@1, @2, proc_edge_begin(rootTransId, $2, false));", "            CALL(@1, @2, proc_edge_begin(rootTransId, $2, true));")
 mut("c05-roottransid-not-updated-uncontrollable", ["C05"], "src/parser.y", "            CALL(@1, @3, proc_edge_begin($1, $3, false));\n        } Select Guard Sync Assign Probability '}' {\n          strcpy(rootTransId, $1);", "            CALL(@1, @3, proc_edge_begin($1, $3, false));\n        } Select Guard Sync Assign Probability '}' {")
+mut("c05-xta-commit-list-tail-urgent", ["C05"], "src/parser.y", "          CALL(@1, @3, proc_location_commit($3));", "          CALL(@1, @3, proc_location_urgent($3));")
 # ---------------- C06 ----------------
-mut("c06-crlf-newline-count", ["C06", "C15"], "src/lexer.l", "    tracker.newline(ch, yyleng / 2);", "    tracker.newline(ch, yyleng);")
+mut("c06-crlf-newline-count", ["C06"], "src/lexer.l", "    tracker.newline(ch, yyleng / 2);", "    tracker.newline(ch, yyleng);")
 mut("c06-label-sibling-count", ["C06"], "src/xmlreader.cpp", 'case tag_t::LABEL: str << "/label[" << count(level, tag_t::LABEL) << "]"; break;', 'case tag_t::LABEL: str << "/label[" << std::min<int>(count(level, tag_t::LABEL), 3) << "]"; break;')
 # ---------------- C08 ----------------
 mut("c08-location-nr-after-duplicate", ["C08"], "src/document.cpp", "    loc.nr = locations.size() - 1;", "    loc.nr = duplicate ? locations.size() : locations.size() - 1;")
@@ -38,6 +39,8 @@ mut("c16-parse-end-keeps-frames-on-success", ["C16"], "src/ExpressionBuilder.cpp
 # ---------------- C20 ----------------
 mut("c20-init-last-location-when-many", ["C20"], "src/xmlwriter.cpp", "    int id = static_cast<const location_t*>(templ.init.get_data())->nr;", "    int id = static_cast<const location_t*>(templ.init.get_data())->nr;\n    if (templ.locations.size() > 3 && id == 1) id = 0;")
 mut("c20-target-of-branchpoint-edges", ["C20"], "src/xmlwriter.cpp", '    const auto id = edge.dst ? concat("id", loc) : concat("bp", edge.dstb->bpNr);\n    startElement("target");', '    const auto id = edge.dst ? concat("id", loc) : concat("bp", edge.srcb ? edge.srcb->bpNr : edge.dstb->bpNr);\n    startElement("target");')
+mut("c20-selfloop-labels-skipped-on-third", ["C20"], "src/xmlwriter.cpp", "        selfLoop(src, angle, edge);", "        if (selfLoops[src] < 2) selfLoop(src, angle, edge); else nail(STEP * src, STEP * dst);")
+mut("c20-uncontrollable-only-without-sync", ["C20"], "src/xmlwriter.cpp", "    if (!edge.control)\n        writeAttribute(\"controllable\", \"false\");", "    if (!edge.control && edge.sync.empty())\n        writeAttribute(\"controllable\", \"false\");")
 # ---------------- C01 ----------------
 mut("c01-label-without-kind", ["C01"], "src/xmlreader.cpp", '        char* kind = getAttribute("kind");\n        if (kind == nullptr)\n            throw TypeException("A label must have a \\"kind\\" attribute");\n        read();\n        /* Read the text and push it to the parser. */\n        if (getNodeType() == XML_READER_TYPE_TEXT) {\n            const xmlChar* text = xmlTextReaderConstValue(reader.get());\n            static const auto map', '        char* kind = getAttribute("kind");\n        read();\n        /* Read the text and push it to the parser. */\n        if (getNodeType() == XML_READER_TYPE_TEXT) {\n            const xmlChar* text = xmlTextReaderConstValue(reader.get());\n            static const auto map')
 mut("c01-eintr-fatal-exit", ["C01"], "src/lexer.l", "#define YY_FATAL_ERROR(msg) { throw TypeException(msg); }", "")
